@@ -14,6 +14,9 @@ CHECKS = {
  "C16": dict(level="exploration", technique="exhaustive enumeration of the locale number grammar x token splittings x contexts x locales, differential oracle against the single-token spelling plus a reference number grammar",
              text="All numbers of the bounded locale grammar, every separator-as-own-token spelling (each as mo or mtext), 11 contexts, 4 locales, plus 25 near-miss sequences; canonical MathML (thorough: speech and braille) of the split spelling must equal the single-<mn> spelling; merged tokens must satisfy the harness's own number grammar.",
              note="Trailing-mark numbers at the very end of an expression are excluded (indistinguishable from sentence punctuation, and the statement lists both readings); comma numbers directly inside fences get only the negative check, as the statement says.", design="§4 C16"),
+ "C19": dict(level="exploration", technique="exhaustive enumeration of all intent strings up to a token-length bound over a 15-token alphabet x hosts x recovery modes x mode-switch orders, against a reference recognizer of the intent grammar",
+             text="All strings of <=3 (quick) / <=4 (thorough) tokens over the full alphabet and longer ones over core sub-alphabets, nesting ladders and edge strings, on three hosts; each string drives a 17-call history (IgnoreIntent, Error, both switching orders on one stored expression, repeated calls, braille, stored-tree read-back). A harness-side recognizer of the quoted grammar classifies strings; illegal ones must be ignored / reported, core-legal ones honoured.",
+             note="Strings the grammar and the implementation may legitimately disagree on (f(), :p(args), property-only arguments, repeated references) are classed undetermined and only required not to fail in IgnoreIntent mode and not to panic.", design="§4 C19"),
 }
 PENDING = {}
 
